@@ -77,7 +77,7 @@ fn gen_damage(ctx: &GenCtx) -> Vec<Value> {
                 match p.below(4) {
                     0 => json!({"tag": 10, "len": 3}),
                     1 => json!({"tag": 60 + p.below(4), "len": p.range(0, 4 * csz)}),
-                    _ => json!({"tag": 21, "len": *p.pick(&[1usize, csz, 2 * csz + 5, 5 * csz - 27, 303, 9000])}),
+                    _ => json!({"tag": 21, "len": *p.pick(&[1usize, csz, 2 * csz + 5, 5 * csz - 27, 303, 1500, 3000, 9000])}),
                 }
             } else {
                 Value::Null
@@ -232,7 +232,14 @@ fn run_damage(plan: &Value, rec: &mut Rec) {
             let (mut inner, end) = lowlevel_decrypt(&pk.body, &sk, &Consumer::ReadToEnd)?;
             end.ok()?;
             inner.extend_from_slice(&frame(tag, &body, &LenForm::NewMinimal)?);
-            let seipd = crate::checks::c04::encrypt_inner(&inner, cfg, sk.as_ref()?, ju64(cfg, "rng_key") / 3 * 3 + 1)?;
+            let mut seipd = crate::checks::c04::encrypt_inner(&inner, cfg, sk.as_ref()?, ju64(cfg, "rng_key") / 3 * 3 + 1)?;
+            // outer framing in partial body lengths (512-octet chunks), as a streaming sender writes it
+            if ju64(plan, "pick") % 2 == 0 {
+                let body = deframe(&seipd).ok()?.first()?.body.clone();
+                if body.len() >= 1024 {
+                    seipd = frame(18, &body, &LenForm::Partial(vec![9u8; body.len() / 512 - 1], Box::new(LenForm::NewMinimal)))?;
+                }
+            }
             let s = [&stream[..pk.start], &seipd[..]].concat();
             let pk = deframe(&s).ok()?.last().cloned()?;
             Some((s, pk))
@@ -346,6 +353,21 @@ fn run_damage(plan: &Value, rec: &mut Rec) {
         let step = (pk.body.len() / cuts.max(1)).max(1);
         for at in (0..pk.body.len()).step_by(step).take(cuts + 1) {
             muts.push(json!({"m":"trunc_reframed","at":at}));
+        }
+        // partial body lengths: cut exactly on (and next to) every chunk boundary of the outer packet
+        if !header_only && pk.chunks.len() > 1 {
+            let n = pk.chunks.len();
+            for (i, (_len, _p, at)) in pk.chunks.iter().enumerate() {
+                if n > 40 && i % (n / 40 + 1) != 0 && i + 3 < n {
+                    continue;
+                }
+                for d in [0isize, -1, 1] {
+                    let off = (*at as isize - pk.start as isize + d).max(0) as usize;
+                    if off < plen {
+                        muts.push(json!({"m":"trunc_raw","at":off}));
+                    }
+                }
+            }
         }
         if light {
             // the last octets one by one: the end of the data and the MDC
